@@ -26,6 +26,8 @@ BOUND = {
     "quick": "all subsets of size <=2 of the full 99-cell grid x 3 default languages x {plain, ${ref}}; all subsets of size 3 of the 57-cell core grid x 3 default languages; delimiter and setting/argument rotated",
     "thorough": "all subsets of size <=3 of the full grid; all subsets of size 4 of the core grid; x 3 default languages",
 }
+# as-built additions to the bound (kept next to BOUND so that the evidence reports them)
+BOUND = {k: v + "; plus: " + 'both column orders; case-variant language tags; label-less choices; keyword-bearing element names; 8 delimiter spellings with optional spaces' for k, v in BOUND.items()}
 
 blocks = C07.blocks
 
